@@ -45,12 +45,28 @@ def run(tier, seed):
         if il.startswith("OK") and "unprintable" in il:
             chk.violation("verification returned an incomplete value", f"incomplete-result {label}", rp)
 
-    for label, pol, a, form, exp in allcat.auth_cases(rng, quick):
+    def spelled(n, d, verify, pol, label, entry):
+        """the same credential as JSON text in another spelling (repeated member names, escapes, white space): the text IS that credential"""
+        sp = jsonmut.text_spellings(d)
+        if not sp:
+            return
+        ref = verify(pol, d)
+        for nm, tx in (sp[n % len(sp)], sp[(n // len(sp) + 1) % len(sp)]):
+            got = verify(pol, tx)
+            chk.evals += 1
+            rp = {"entry": entry, "label": label, "spelling": nm, "text": tx[:1500], "policy": pol.describe(), "impl": got[:200], "dict_form": ref[:200]}
+            judge(got, label, rp)
+            if got != ref and not (got.startswith("ERR") and ref.startswith("ERR")):
+                chk.violation(f"credential text ({nm}) is judged differently from the value it denotes ({label})", f"text-spelling {nm} {label.split('+')[0].split('/')[0]}", rp)
+
+    for n, (label, pol, a, form, exp) in enumerate(allcat.auth_cases(rng, quick)):
         il, ml = A.run_case(pol, a, form, None, label)
         judge(il, label, {"entry": "verify_authentication_response", "label": label, "form": form, "policy": pol.describe(), "credential": a.as_dict(), "impl": il})
-    for label, pol, reg, form, exp, s in allcat.reg_cases(rng, quick):
+        spelled(n, a.as_dict(), impl.verify_auth, pol, label, "verify_authentication_response")
+    for n, (label, pol, reg, form, exp, s) in enumerate(allcat.reg_cases(rng, quick)):
         il, ml = B.run_case(pol, reg, form, None, label, scn=s)
         judge(il, label, {"entry": "verify_registration_response", "label": label, "form": form, "policy": pol.describe(), "credential": reg.as_dict(), "scenario": s.describe(), "impl": il[:200]})
+        spelled(n, reg.as_dict(), impl.verify_reg, pol, label, "verify_registration_response")
     # parsers named by the property
     from webauthn.helpers import parse_cbor, encode_cbor
     from webauthn.helpers.exceptions import WebAuthnException
